@@ -396,7 +396,7 @@ var specs = map[string]*CheckSpec{
 		Encoded:     []string{"v2.bulkHandler", "v2.ProcessBulk", "libs/api.QueryParamBool", "ledger.(*TransactionRequest).ToRunScript", "ledger.TxToScriptData", "command.IsSaveMetaError/IsDeleteMetaError", "engine.IsCommandError", "machine.IsInsufficientFundError"},
 		Rule:        "per bulk length: action and error class are enumerated decisions, failure flags and continueOnFailure are solver variables; backend calls, result positions/types and the failure signal are compared with the in-order reference",
 		Workers:     16,
-		MaxPaths:    func(tier string) int { return 200000 },
+		MaxPaths:    func(tier string) int { return 1500000 },
 	},
 	"C09": {
 		ID: "C09", Patterns: []string{cmdPkg, v2Pkg, v1Pkg}, NeedHelper: true,
